@@ -1855,7 +1855,9 @@ def check_C08(args):
             for ii in range(rng.randint(1, 3)):
                 cond = rng.choice(["", " WHERE b = 'y'", " WHERE b <> 'y'", " HAVING f > 16"])
                 sub = "SELECT b FROM b%s" % cond                       # nested form: selects the dimension
-                alone = "SELECT f FROM b%s" % cond                     # the same query run on its own
+                # the same query run on its own: a sub-query selects _points (planner.fixupSubQuery), so a
+                # key whose points carry none of the field's values still counts
+                alone = "SELECT _points FROM b%s" % cond
                 outer = "SELECT f FROM a WHERE b IN %%s%s" % rng.choice(["", " GROUP BY a, b", " GROUP BY b, period(4s)"])
                 qs.append({"a": "InLaw", "sub": sub, "sql": alone, "dim": "b", "outer": outer, "mem": rng.random() < 0.7,
                            "lawId": "i%d" % ii})
@@ -1864,8 +1866,8 @@ def check_C08(args):
                 c1 = rng.choice(["", " WHERE b = 'y'", " WHERE b <> 'y'"])
                 c2 = rng.choice(["", " WHERE a = 1", " WHERE b = 'x'", " WHERE a <> 1"])
                 outer = "SELECT f FROM a WHERE b IN %%s %s a IN %%s%s" % (rng.choice(["AND", "OR"]), rng.choice(["", " GROUP BY a, b", " GROUP BY a, period(4s)"]))
-                qs.append({"a": "InLaw", "sub": "SELECT b FROM b%s" % c1, "sql": "SELECT f FROM b%s" % c1, "dim": "b",
-                           "sub2": "SELECT a FROM a%s" % c2, "sql2": "SELECT f FROM a%s" % c2, "dim2": "a",
+                qs.append({"a": "InLaw", "sub": "SELECT b FROM b%s" % c1, "sql": "SELECT _points FROM b%s" % c1, "dim": "b",
+                           "sub2": "SELECT a FROM a%s" % c2, "sql2": "SELECT _points FROM a%s" % c2, "dim2": "a",
                            "outer": outer, "mem": rng.random() < 0.7, "lawId": "j%d" % ii})
             # FROM (subquery): the outer query over the materialised inner result
             for fi in range(rng.randint(1, 3)):
